@@ -14,8 +14,10 @@
 // Checked on every case: impl = plain (the core of the property); session framing (… exitG, terminate last);
 // impl events = y and breakpoint placement = marks (correspondence); Go reference = g (spec validation);
 // break events of impl = break events of the reference (the property). No class of inputs is excused any more
-// (F20 code-ambiguous-branch: fixed by d1e6c4c, F19-1 back-edge-forwarding: fixed by 3d77a98): every difference
-// is a VIOLATION.
+// (F20: fixed by d1e6c4c, F19-1: 3d77a98, F19-2 … F19-7: 0a3a691) except the methods of generic types (F19-8): every
+// other difference is a VIOLATION. The Go reference (ref.go) reads the requested *lines*, the Lean reference (g=) the
+// nodes SetBreakpoints marks according to the expected facts: their agreement on every case is the check that the
+// nodes which execute are among the marked ones.
 package main
 
 import (
@@ -64,8 +66,6 @@ type verdictT struct {
 	SameCode              bool // some branch has two successors made by the same generator (the shape of F20)
 	Forwards              int  // hand-overs through forwarding closures (back edges, the shape of F19-1)
 	Crash                 bool // SetBreakpoints did not return
-	Visits                int  // visits of requested lines looked at
-	LateStops             int  // visits whose break stop comes after nodes of the line have executed
 	LineFindings          []string
 }
 
@@ -76,6 +76,10 @@ func (ck *checker) check(c caseT, record bool) (v verdictT, ok bool) {
 	if !seen {
 		var ce string
 		pl, ce = runPlain(c.Src)
+		if pl.Crash == "hang" {
+			// a loaded machine can starve the run past the deadline: a real hang shows again
+			pl, ce = runPlain(c.Src)
+		}
 		ck.plain[c.Src], ck.compErr[c.Src] = pl, ce
 	}
 	if ce := ck.compErr[c.Src]; ce != "" {
@@ -119,6 +123,20 @@ func (ck *checker) check(c caseT, record bool) (v verdictT, ok bool) {
 	}
 	terminated := strings.Contains(c.Cmds[:min(s.CmdsUsed, len(c.Cmds))], "t")
 
+	if path := os.Getenv("C19_EVENTS_OUT"); path != "" && len(c.Bps) == 0 && record {
+		// for comparisons of stepping traces between two trees (no breakpoints: stops of the step modes only)
+		if f, err := os.OpenFile(path, os.O_APPEND|os.O_CREATE|os.O_WRONLY, 0o644); err == nil {
+			var ev []string
+			for _, e := range s.Events {
+				if isStop(e.Reason) {
+					ev = append(ev, fmt.Sprintf("%s:%d", e.Reason, e.Line))
+				}
+			}
+			b, _ := json.Marshal(map[string]interface{}{"src": c.Src, "cmds": c.Cmds, "events": strings.Join(ev, ",")})
+			f.Write(append(b, '\n'))
+			f.Close()
+		}
+	}
 	// (a) behaviour as the plain run
 	same := s.Out.Stdout == pl.Stdout && s.Out.Stderr == pl.Stderr && s.Out.Res == pl.Res && s.Out.Err == pl.Err && s.Out.Crash == pl.Crash
 	if terminated {
@@ -182,8 +200,8 @@ func (ck *checker) check(c caseT, record bool) (v verdictT, ok bool) {
 		fmt.Fprintln(os.Stderr, "ANS:", ansS)
 		fmt.Fprintln(os.Stderr, "PLAIN:", pl, "DEBUG:", s.Out)
 	}
-	marks, marksS := marksOf(s.Dump)
-	ref := refEvents(s.Dump, marks, c.Cmds, tr.tape)
+	marksS, cmarksS := marksOf(s.Dump)
+	ref, executedLines := refEvents(s.Dump, c.Bps, c.Cmds, tr.tape)
 	class := classOf(s.Dump, tr.tape)
 	// the decidable hypotheses, computed twice
 	sep, idsep := "1", "1"
@@ -211,8 +229,14 @@ func (ck *checker) check(c caseT, record bool) (v verdictT, ok bool) {
 			run.Errorf("the tape does not replay through the model: out=%s left=%s steps=%s (plain err %q)", ans["out"], ans["left"], ans["steps"], pl.Err)
 		}
 	}
-	if marksS != ans["marks"] {
-		disagree(common.Disagreement{Kind: "impl-vs-model", Impl: marksS, Model: ans["marks"], Note: "nodes marked by SetBreakpoints"})
+	validS := validBits(c.Bps, s.BpValid)
+	if marksS != ans["marks"] || cmarksS != ans["cmarks"] || validS != ans["valid"] {
+		disagree(common.Disagreement{Kind: "impl-vs-model", Impl: marksS + " / " + cmarksS + " / " + validS,
+			Model: ans["marks"] + " / " + ans["cmarks"] + " / " + ans["valid"], Note: "nodes marked by SetBreakpoints (breakOnLine / breakOnCall) / Valid of the line requests"})
+	}
+	if ans["gmarks"] != ans["marks"] {
+		// the placement of the expected facts differs from that of the extracted ones: the source changed
+		run.Hit("marks:differ-from-expected-placement")
 	}
 	if refS != ans["g"] {
 		disagree(common.Disagreement{Kind: "spec-vs-ref", Spec: ans["g"], Ref: refS})
@@ -229,7 +253,7 @@ func (ck *checker) check(c caseT, record bool) (v verdictT, ok bool) {
 	}
 	// line level: what the requests mean, read off the source (lines.go)
 	if kinds, ok := ck.kinds(c.Src); ok && len(s.BpValid) == len(c.Bps) {
-		modelAgrees := implS == ans["y"] && marksS == ans["marks"]
+		modelAgrees := implS == ans["y"] && marksS == ans["marks"] && validS == ans["valid"]
 		label := func(class string) string {
 			if !modelAgrees {
 				return ""
@@ -242,15 +266,22 @@ func (ck *checker) check(c caseT, record bool) (v verdictT, ok bool) {
 			disagree(common.Disagreement{Kind: "impl-vs-ref", Impl: fmt.Sprintf("invalid: lines %v", inv[class]), Model: "marks " + ans["marks"],
 				Ref: "a statement begins on each of these lines", Finding: label(class), Note: "a line breakpoint on a statement line is refused"})
 		}
-		if !terminated && s.Out.Crash == "" {
-			miss, visits, late := unreportedVisits(s.Dump, kinds, c.Bps, s.BpValid, tr.tape, stops)
-			v.Visits, v.LateStops = visits, late
-			for _, class := range sortedKeys(miss) {
-				v.LineFindings = append(v.LineFindings, class)
-				disagree(common.Disagreement{Kind: "impl-vs-ref", Impl: "breaks " + v.BreaksImpl, Model: "marks " + ans["marks"],
-					Ref: "unreported visits (line@first step): " + strings.Join(miss[class], " "), Finding: label(class),
-					Note: "control reaches a line with a valid breakpoint and leaves it without a break stop"})
+		// a requested line on which a step executed (tape) must be valid
+		var refused []int
+		k := 0
+		for _, b := range c.Bps {
+			if b.Func == "" {
+				if executedLines[b.Line] && !(k < len(s.BpValid) && s.BpValid[k]) {
+					refused = append(refused, b.Line)
+				}
 			}
+			k++
+		}
+		if len(refused) > 0 {
+			v.LineFindings = append(v.LineFindings, "bp-invalid-on-executed-line")
+			disagree(common.Disagreement{Kind: "impl-vs-ref", Impl: fmt.Sprintf("invalid: lines %v", refused), Model: "marks " + ans["marks"],
+				Ref: "a step of the program executes on each of these lines", Finding: label("bp-invalid-on-executed-line"),
+				Note: "a line breakpoint on a line that executes is refused"})
 		}
 	}
 	if class == "" && implS != refS {
@@ -258,6 +289,25 @@ func (ck *checker) check(c caseT, record bool) (v verdictT, ok bool) {
 		disagree(common.Disagreement{Kind: "impl-vs-ref", Impl: implS, Ref: refS, Note: "events differ from the reference debugger"})
 	}
 	return v, true
+}
+
+// validBits: Valid of the line requests, in order, as the driver prints it.
+func validBits(bps []bpT, valid []bool) string {
+	var out []string
+	for k, b := range bps {
+		if b.Func != "" {
+			continue
+		}
+		if k < len(valid) && valid[k] {
+			out = append(out, "1")
+		} else {
+			out = append(out, "0")
+		}
+	}
+	if len(out) == 0 {
+		return "-"
+	}
+	return strings.Join(out, ".")
 }
 
 func sortedKeys[T any](m map[string]T) []string {
@@ -309,7 +359,7 @@ func min(a, b int) int {
 
 func main() {
 	run := common.NewRun("C19")
-	run.Res.Rule = "case = (program, breakpoint requests set before the start, resume commands: one per stop, Continue when exhausted); programs: a fixed corpus (the replays of the repaired findings F20 and F19-1, the regression programs of their repairs: two loops, nested loops, labelled continue, goto loops, else-if chains, switches, type switch, short circuits, a generic function) plus seeded sequential programs (if/else whose arms are made by one generator: constant assignments, ++, +=, calls, prints, returns; else-if chains; short-circuit conditions; three-clause, condition-only and condition-less loops with break/continue, twin loops of one shape, continue of an outer loop, label+goto loops, loops in helpers entered several times, range, switch, calls of helpers incl. recursion, two results, closures capturing variables, a generic helper in 1 program of 30, final panic); breakpoint sets: none, every line, random lines, function breakpoints (incl. an unknown name), mixed; commands: continue only, step-entry then into/over all the way, seeded mixes of continue/into/over/out, terminate only as last command; line level (go/parser): a request on a line where a statement begins must be valid, and every visit of a validly requested line by control must contain a break stop; non-trivial = the session has at least one stop; distinct = distinct (program, breakpoints, commands)"
+	run.Res.Rule = "case = (program, breakpoint requests set before the start, resume commands: one per stop, Continue when exhausted); programs: a fixed corpus (the replays of the repaired findings F20 and F19-1, the regression programs of their repairs: two loops, nested loops, labelled continue, goto loops, else-if chains, switches, type switch, short circuits, a generic function) plus seeded sequential programs (if/else whose arms are made by one generator: constant assignments, ++, +=, calls, prints, returns; else-if chains; short-circuit conditions; three-clause, condition-only and condition-less loops with break/continue, twin loops of one shape, continue of an outer loop, label+goto loops, loops in helpers entered several times, range, switch, calls of helpers incl. recursion, two results, closures capturing variables, plain switch tags, one-line methods with a pointer receiver, two statements on a line, one-line ifs with jumps, a generic helper (instantiated at two types) in 1 program of 8, the regression programs of 0a3a691, final panic); breakpoint sets: none, every line, random lines, function breakpoints (incl. an unknown name), mixed; commands: continue only, step-entry then into/over all the way, seeded mixes of continue/into/over/out, terminate only as last command; line level: the reference debugger reads the requested lines only (one break stop each time an activation enters a requested line, before anything on it runs); a request on a line where a statement that evaluates something begins (go/parser; dead code under constant tests and generic templates left out), or on which a step executes during the run, must be valid; non-trivial = the session has at least one stop; distinct = distinct (program, breakpoints, commands)"
 	defer run.Finish()
 	drv, err := common.StartDriver("C19")
 	if err != nil {
@@ -415,12 +465,6 @@ func main() {
 				}
 				for _, lf := range v.LineFindings {
 					run.Hit("line:" + lf)
-				}
-				if v.Visits > 0 {
-					run.Hit("line:visits-checked")
-				}
-				if v.LateStops > 0 {
-					run.Hit("line:stop-after-first-node-of-the-line")
 				}
 				if v.Same {
 					run.Hit("breaks:as-reference")
